@@ -1,4 +1,5 @@
-(** C17 proofs, part (ii): the value <-> JSON round trip on [plain_json] values. *)
+(** C17 proofs, part (ii): the value <-> JSON round trip of the CURRENT representation
+    (model with [cur = true]): decode (encode v) = v up to the storage of empty number arrays. *)
 From Coq Require Import List NArith Bool Lia.
 From UV Require Import Base.Value Model.Uasm Model.UasmValue Model.UasmPlain.
 Import ListNotations.
@@ -20,38 +21,40 @@ Proof.
 Qed.
 
 (** F64Rep *)
-Lemma f64rep_cases x : (exists s, f64rep_json x = JStr s) \/ f64rep_json x = JFloat x.
+Notation fj := (f64rep_json true).
+Notation pf := (p_f64rep true).
+
+Lemma f64rep_cases x : (exists s, fj x = JStr s) \/ fj x = JFloat x \/ fj x = JObj [(K_NAN, JInt x)].
 Proof.
   unfold f64rep_json. destruct (f_is_nan x).
-  - left. destruct (x =? F_WILD_NAN); [eauto|]. destruct (x =? F_EMPTY_NAN); [eauto|].
-    destruct (x =? F_TOMB_NAN); eauto.
+  - destruct (x =? F_WILD_NAN); [eauto|]. destruct (x =? F_EMPTY_NAN); [eauto|].
+    destruct (x =? F_TOMB_NAN); [eauto|]. cbn iota. destruct (x =? F_NAN_BITS); eauto.
   - destruct (x =? F_INF_BITS); [eauto|]. destruct (x =? F_NEG_INF); eauto.
 Qed.
 
-Lemma f64rep_roundtrip x : p_f64rep (f64rep_json x) = Some (canon_f x).
+Ltac fcases x := destruct (f64rep_cases x) as [[? ->] | [-> | ->]].
+
+Lemma f64rep_roundtrip x : f64_ok x = true -> pf (fj x) = Some x.
 Proof.
-  unfold f64rep_json, canon_f. destruct (f_is_nan x) eqn:En.
+  intros Hx. unfold f64rep_json. destruct (f_is_nan x) eqn:En.
   - destruct (x =? F_WILD_NAN) eqn:E1; [apply N.eqb_eq in E1; subst; reflexivity|].
     destruct (x =? F_EMPTY_NAN) eqn:E2; [apply N.eqb_eq in E2; subst; reflexivity|].
     destruct (x =? F_TOMB_NAN) eqn:E3; [apply N.eqb_eq in E3; subst; reflexivity|].
-    reflexivity.
+    cbn iota. destruct (x =? F_NAN_BITS) eqn:E4; [apply N.eqb_eq in E4; subst; reflexivity|].
+    unfold p_f64rep. change (text_eqb K_NAN K_NAN) with true. unfold f64_ok in Hx. rewrite Hx. reflexivity.
   - destruct (x =? F_INF_BITS) eqn:E1; [apply N.eqb_eq in E1; subst; reflexivity|].
     destruct (x =? F_NEG_INF) eqn:E2; [apply N.eqb_eq in E2; subst; reflexivity|].
     reflexivity.
 Qed.
 
-Lemma f64rep_not_u8 x : p_u8 (f64rep_json x) = None.
-Proof. destruct (f64rep_cases x) as [[s ->] | ->]; reflexivity. Qed.
-Lemma f64rep_not_shape x : p_shape (f64rep_json x) = None.
-Proof. destruct (f64rep_cases x) as [[s ->] | ->]; reflexivity. Qed.
-Lemma f64rep_not_complex x : p_complex (f64rep_json x) = None.
-Proof. destruct (f64rep_cases x) as [[s ->] | ->]; reflexivity. Qed.
-
-Lemma finite_json x : finite x = true -> f64_json x = JFloat x.
-Proof.
-  unfold finite, f64_json. intros H. apply N.ltb_lt in H.
-  destruct (F_INF_BITS <=? f_mag x) eqn:E; [apply N.leb_le in E; lia | reflexivity].
-Qed.
+Lemma f64rep_not_u8 x : p_u8 (fj x) = None.
+Proof. fcases x; reflexivity. Qed.
+Lemma f64rep_not_usize x : p_usize (fj x) = None.
+Proof. fcases x; reflexivity. Qed.
+Lemma f64rep_not_shape x : p_shape (fj x) = None.
+Proof. fcases x; reflexivity. Qed.
+Lemma f64rep_not_complex x : p_complex (fj x) = None.
+Proof. fcases x; reflexivity. Qed.
 
 Section Self.
   Variable self : json -> option mval.
@@ -70,22 +73,22 @@ Section Self.
     | VBox _ d => VBox [length d] d end.
 
   Lemma p_array_simple kind j : no_tuple j ->
-    p_array self kind j =
-    match p_coll self kind [] j with
+    p_array true self kind j =
+    match p_coll true self kind [] j with
     | Some v => Some (MV (relen v) None None)
-    | None => match p_scalar self kind j with Some v => Some (MV v None None) | None => None end
+    | None => match p_scalar true self kind j with Some v => Some (MV v None None) | None => None end
     end.
   Proof.
-    intros H. unfold p_array. destruct (p_coll self kind [] j) as [v|]; [destruct v; reflexivity|].
-    destruct (p_scalar self kind j); [reflexivity|].
+    intros H. unfold p_array. destruct (p_coll true self kind [] j) as [v|]; [destruct v; reflexivity|].
+    destruct (p_scalar true self kind j); [reflexivity|].
     destruct j as [| | | | | |l|]; try reflexivity.
     destruct l as [|s [|c [|m [|? ?]]]]; try reflexivity; cbn in H; rewrite H; reflexivity.
   Qed.
 
   Lemma p_array_metaless kind sh c :
-    p_coll self kind [] (JArr [shape_json sh; c]) = None ->
-    p_scalar self kind (JArr [shape_json sh; c]) = None ->
-    p_array self kind (JArr [shape_json sh; c]) = option_map (fun v => MV v None None) (p_coll self kind sh c).
+    p_coll true self kind [] (JArr [shape_json sh; c]) = None ->
+    p_scalar true self kind (JArr [shape_json sh; c]) = None ->
+    p_array true self kind (JArr [shape_json sh; c]) = option_map (fun v => MV v None None) (p_coll true self kind sh c).
   Proof.
     intros H1 H2. unfold p_array. rewrite H1, H2. rewrite p_shape_json. reflexivity.
   Qed.
@@ -97,77 +100,92 @@ Proof. intros H. cbn [opt_map]. rewrite H. reflexivity. Qed.
 Lemma rank1_shape {A} n (d : list A) : Nat.eqb (length d) (shape_prod [n]) = true -> [n] = [length d].
 Proof. cbn. intros H. apply PeanoNat.Nat.eqb_eq in H. rewrite PeanoNat.Nat.mul_1_r in H. congruence. Qed.
 
-Definition cN (d : list f64) : json := JArr (map f64rep_json d).
+Definition cN (d : list f64) : json := JArr (map fj d).
 Definition cB (d : list N) : json := JArr (map JInt d).
-Definition pairj (c : f64 * f64) : json := JArr [f64_json (fst c); f64_json (snd c)].
+Definition pairj (c : f64 * f64) : json := JArr [fj (fst c); fj (snd c)].
 Definition cC (d : list (f64 * f64)) : json :=
   match d with [] => JObj [(K_EMPTY_COMPLEX, JArr [])] | _ => JArr (map pairj d) end.
-Definition boxj (x : value) : json := JObj [(K_B, to_json x)].
+Definition boxj (x : value) : json := JObj [(K_B, to_json true x)].
 Definition cX (d : list value) : json :=
   match d with [] => JObj [(K_EMPTY_BOXES, JArr [])] | _ => JArr (map boxj d) end.
 
-Definition first_some (a b : option mval) : option mval := match a with Some m => Some m | None => b end.
+Lemma boxj_not_f64rep j : pf (JObj [(K_B, j)]) = None.
+Proof. destruct j; reflexivity. Qed.
+Lemma pairj_not_shape c : p_shape (pairj c) = None.
+Proof. unfold pairj, p_shape. cbn [opt_map]. rewrite f64rep_not_usize. reflexivity. Qed.
 
 Section Cases.
   Variable self : json -> option mval.
 
   Definition arr (k : nat) (sh : list nat) (c : json) : option mval :=
-    option_map (fun v => MV v None None) (p_coll self k sh c).
+    option_map (fun v => MV v None None) (p_coll true self k sh c).
 
-  (** [shape, coll] for rank <> 1 *)
-  Lemma meta_0 sh c : p_array self 0 (JArr [shape_json sh; c]) = arr 0 sh c.
+  (** [shape, coll] *)
+  Lemma meta_0 sh c : p_array true self 0 (JArr [shape_json sh; c]) = arr 0 sh c.
   Proof. apply p_array_metaless; reflexivity. Qed.
-  Lemma meta_1 sh c : p_array self 1 (JArr [shape_json sh; c]) = arr 1 sh c.
+  Lemma meta_1 sh c : p_array true self 1 (JArr [shape_json sh; c]) = arr 1 sh c.
   Proof. apply p_array_metaless; reflexivity. Qed.
-  Lemma meta_2 sh c : p_complex c = None -> p_array self 2 (JArr [shape_json sh; c]) = arr 2 sh c.
+  Lemma meta_2 sh c : p_complex_el true c = None -> p_array true self 2 (JArr [shape_json sh; c]) = arr 2 sh c.
   Proof.
     intros H. apply p_array_metaless.
-    - cbn [p_coll option_map opt_map]. destruct (p_complex (shape_json sh)); [rewrite H|]; reflexivity.
+    - cbn [p_coll option_map opt_map]. destruct (p_complex_el true (shape_json sh)); [rewrite H|]; reflexivity.
     - reflexivity.
   Qed.
-  Lemma meta_3 sh c : p_array self 3 (JArr [shape_json sh; c]) = arr 3 sh c.
+  Lemma meta_3 sh c : p_array true self 3 (JArr [shape_json sh; c]) = arr 3 sh c.
   Proof. apply p_array_metaless; reflexivity. Qed.
-  Lemma meta_4 sh c : length sh <> 1%nat -> p_array self 4 (JArr [shape_json sh; c]) = arr 4 sh c.
+  Lemma meta_4 sh c : length sh <> 1%nat -> p_array true self 4 (JArr [shape_json sh; c]) = arr 4 sh c.
   Proof.
     intros H. apply p_array_metaless; [|reflexivity].
     destruct sh as [|a [|b sh']]; [reflexivity | cbn in H; congruence | reflexivity].
   Qed.
 
   (** the collections under each element kind *)
-  Lemma cN_0 sh d : p_coll self 0 sh (cN d) = match d with [] => Some (VByte sh []) | _ => None end.
+  Lemma cN_0 sh d : p_coll true self 0 sh (cN d) = match d with [] => Some (VByte sh []) | _ => None end.
   Proof. destruct d as [|x d]; [reflexivity|]. unfold cN. cbn [map p_coll]. rewrite opt_map_head_none by apply f64rep_not_u8. reflexivity. Qed.
-  Lemma cN_1 sh d : p_coll self 1 sh (cN d) = Some (VNum sh (map canon_f d)).
-  Proof. unfold cN. cbn [p_coll]. rewrite (opt_map_map p_f64rep f64rep_json canon_f) by (intros; apply f64rep_roundtrip). reflexivity. Qed.
-  Lemma cB_0 sh d : forallb (fun x => x <=? 255) d = true -> p_coll self 0 sh (cB d) = Some (VByte sh d).
+  Lemma cN_1 sh d : forallb f64_ok d = true -> p_coll true self 1 sh (cN d) = Some (VNum sh d).
+  Proof.
+    intros H. unfold cN. cbn [p_coll]. rewrite (opt_map_map pf fj (fun x => x)).
+    - rewrite map_id. reflexivity.
+    - intros x Hx. rewrite forallb_forall in H. apply f64rep_roundtrip. auto.
+  Qed.
+  Lemma cB_0 sh d : forallb (fun x => x <=? 255) d = true -> p_coll true self 0 sh (cB d) = Some (VByte sh d).
   Proof.
     intros H. unfold cB. cbn [p_coll]. rewrite (opt_map_map p_u8 JInt (fun x => x)).
     - rewrite map_id. reflexivity.
     - intros x Hx. rewrite forallb_forall in H. cbn. rewrite (H x Hx). reflexivity.
   Qed.
-  Lemma pair_ok c : finite (fst c) && finite (snd c) = true -> p_complex (pairj c) = Some c.
+  Lemma pair_ok c : f64_ok (fst c) && f64_ok (snd c) = true -> p_complex_el true (pairj c) = Some c.
   Proof.
-    intros H. apply andb_prop in H. destruct H as [H1 H2]. unfold pairj.
-    rewrite (finite_json _ H1), (finite_json _ H2). destruct c; reflexivity.
+    intros H. apply andb_prop in H. destruct H as [H1 H2]. unfold pairj, p_complex_el.
+    rewrite (f64rep_roundtrip _ H1), (f64rep_roundtrip _ H2). destruct c; reflexivity.
   Qed.
-  Lemma cC_2 sh d : forallb (fun c => finite (fst c) && finite (snd c)) d = true -> p_coll self 2 sh (cC d) = Some (VCplx sh d).
+  Lemma cC_2 sh d : forallb (fun c => f64_ok (fst c) && f64_ok (snd c)) d = true -> p_coll true self 2 sh (cC d) = Some (VCplx sh d).
   Proof.
     intros H. destruct d as [|x d]; [reflexivity|]. unfold cC. cbn [p_coll].
-    rewrite (opt_map_map p_complex pairj (fun c => c)).
+    rewrite (opt_map_map (p_complex_el true) pairj (fun c => c)).
     - rewrite map_id. reflexivity.
     - intros c Hc. rewrite forallb_forall in H. apply pair_ok. apply H. exact Hc.
   Qed.
-  Lemma cC_other k sh d : (k = 0 \/ k = 1 \/ k = 3)%nat -> p_coll self k sh (cC d) = None.
+  Lemma cC_other k sh d : (k = 0 \/ k = 1 \/ k = 3)%nat -> p_coll true self k sh (cC d) = None.
   Proof. intros [-> | [-> | ->]]; destruct d; reflexivity. Qed.
-  Lemma cC_not_complex d : p_complex (cC d) = None.
+  Lemma cC_not_complex d : p_complex_el true (cC d) = None.
   Proof. destruct d as [|a [|b [|? ?]]]; reflexivity. Qed.
-  Lemma cX_other k sh d : (k = 0 \/ k = 1 \/ k = 2 \/ k = 3)%nat -> p_coll self k sh (cX d) = None.
-  Proof. intros [-> | [-> | [-> | ->]]]; destruct d; reflexivity. Qed.
-  Lemma cX_not_complex d : p_complex (cX d) = None.
+  Lemma cX_other k sh d : (k = 0 \/ k = 1 \/ k = 2 \/ k = 3)%nat -> p_coll true self k sh (cX d) = None.
+  Proof.
+    intros [-> | [-> | [-> | ->]]]; destruct d as [|x d]; try reflexivity.
+    unfold cX. cbn [map p_coll]. rewrite opt_map_head_none by apply boxj_not_f64rep. reflexivity.
+  Qed.
+  Lemma cX_not_complex d : p_complex_el true (cX d) = None.
+  Proof.
+    destruct d as [|a [|b [|? ?]]]; try reflexivity.
+    unfold cX, p_complex_el. cbn [map]. unfold boxj at 1. rewrite boxj_not_f64rep. reflexivity.
+  Qed.
+  Lemma cX_not_complex' d : p_complex (cX d) = None.
   Proof. destruct d as [|a [|b [|? ?]]]; reflexivity. Qed.
-  Lemma boxed_ok x : self (to_json x) = Some (MV (norm x) None None) -> p_boxed self (boxj x) = Some (norm x).
+  Lemma boxed_ok x : self (to_json true x) = Some (MV (norm x) None None) -> p_boxed self (boxj x) = Some (norm x).
   Proof. intros H. unfold boxj, p_boxed. cbn [assoc]. change (text_eqb K_B K_B) with true. cbn iota. rewrite H. reflexivity. Qed.
-  Lemma cX_4 sh d : Forall (fun x => self (to_json x) = Some (MV (norm x) None None)) d ->
-    p_coll self 4 sh (cX d) = Some (VBox sh (map norm d)).
+  Lemma cX_4 sh d : Forall (fun x => self (to_json true x) = Some (MV (norm x) None None)) d ->
+    p_coll true self 4 sh (cX d) = Some (VBox sh (map norm d)).
   Proof.
     intros H. destruct d as [|x d]; [reflexivity|]. unfold cX. cbn [p_coll].
     rewrite (opt_map_map (p_boxed self) boxj norm); [reflexivity|].
@@ -175,134 +193,126 @@ Section Cases.
   Qed.
 End Cases.
 
-Lemma pairj_not_shape c : p_shape (pairj c) = None.
-Proof.
-  unfold pairj, f64_json. destruct (F_INF_BITS <=? f_mag (fst c)); reflexivity.
-Qed.
-
-Lemma not_spelling_f64rep d : is_spelling d = false -> p_f64rep (JStr d) = None.
+Lemma not_spelling_f64rep d : is_spelling d = false -> pf (JStr d) = None.
 Proof.
   unfold is_spelling. intros H.
   repeat (apply orb_false_elim in H; destruct H as [H ?]).
-  cbn [p_f64rep]. repeat match goal with E : text_eqb _ _ = false |- _ => rewrite E; clear E end. reflexivity.
+  cbn [p_f64rep]. unfold unit_variant. repeat match goal with E : text_eqb _ _ = false |- _ => rewrite E; clear E end. reflexivity.
 Qed.
 
 Section Main.
   Variable self : json -> option mval.
 
-  Ltac simple0 := rewrite (p_array_simple self) by (try exact I; cbn; auto).
-
-  Lemma rt_num sh d : wf_shape (VNum sh d) = true ->
-    p_value self (to_json (VNum sh d)) = Some (MV (norm (VNum sh d)) None None).
+  Lemma rt_num sh d : wf_shape (VNum sh d) = true -> repr_ok (VNum sh d) = true ->
+    p_value true self (to_json true (VNum sh d)) = Some (MV (norm (VNum sh d)) None None).
   Proof.
-    intros Hwf. cbn [wf_shape data_len shape_of] in Hwf.
+    intros Hwf Hp. cbn [wf_shape data_len shape_of] in Hwf. cbn [repr_ok] in Hp.
     destruct sh as [|n [|n2 sh']].
     - destruct d as [|x [|? ?]]; try discriminate. cbn [to_json norm map].
+      cbn [forallb] in Hp. rewrite andb_true_r in Hp.
       unfold p_value.
-      rewrite (p_array_simple self 0%nat) by (destruct (f64rep_cases x) as [[s ->] | ->]; exact I).
-      assert (E0 : p_coll self 0 [] (f64rep_json x) = None) by (destruct (f64rep_cases x) as [[s ->] | ->]; reflexivity).
-      assert (E1 : p_coll self 1 [] (f64rep_json x) = None) by (destruct (f64rep_cases x) as [[s ->] | ->]; reflexivity).
+      rewrite (p_array_simple self 0%nat) by (fcases x; exact I).
+      assert (E0 : p_coll true self 0 [] (fj x) = None) by (fcases x; reflexivity).
+      assert (E1 : p_coll true self 1 [] (fj x) = None) by (fcases x; reflexivity).
       rewrite E0. cbn [p_scalar]. rewrite f64rep_not_u8. cbn [option_map].
-      rewrite (p_array_simple self 1%nat) by (destruct (f64rep_cases x) as [[s ->] | ->]; exact I).
-      rewrite E1. cbn [p_scalar]. rewrite f64rep_roundtrip. reflexivity.
-    - rewrite (rank1_shape _ _ Hwf). change (to_json (VNum [length d] d)) with (cN d).
+      rewrite (p_array_simple self 1%nat) by (fcases x; exact I).
+      rewrite E1. cbn [p_scalar]. rewrite f64rep_roundtrip by auto. reflexivity.
+    - rewrite (rank1_shape _ _ Hwf). change (to_json true (VNum [length d] d)) with (cN d).
       assert (Hnt : no_tuple (cN d)).
       { destruct d as [|a [|b [|c [|? ?]]]]; try exact I; cbn; apply f64rep_not_shape. }
       unfold p_value. rewrite (p_array_simple self 0%nat _ Hnt), cN_0.
       destruct d as [|x d]; [reflexivity|].
-      change (p_scalar self 0 (cN (x :: d))) with (@None value).
-      rewrite (p_array_simple self 1%nat _ Hnt), cN_1. cbn [relen norm]. rewrite map_length. reflexivity.
-    - change (to_json (VNum (n :: n2 :: sh') d)) with (JArr [shape_json (n :: n2 :: sh'); cN d]).
+      change (p_scalar true self 0 (cN (x :: d))) with (@None value).
+      rewrite (p_array_simple self 1%nat _ Hnt), cN_1 by auto. reflexivity.
+    - change (to_json true (VNum (n :: n2 :: sh') d)) with (JArr [shape_json (n :: n2 :: sh'); cN d]).
       unfold p_value. rewrite meta_0. unfold arr. rewrite cN_0.
       destruct d as [|x d]; [reflexivity|]. cbn [option_map].
-      rewrite meta_1. unfold arr. rewrite cN_1. reflexivity.
+      rewrite meta_1. unfold arr. rewrite cN_1 by auto. reflexivity.
   Qed.
 
-  Lemma rt_byte sh d : wf_shape (VByte sh d) = true -> plain_json (VByte sh d) = true ->
-    p_value self (to_json (VByte sh d)) = Some (MV (VByte sh d) None None).
+  Lemma rt_byte sh d : wf_shape (VByte sh d) = true -> repr_ok (VByte sh d) = true ->
+    p_value true self (to_json true (VByte sh d)) = Some (MV (VByte sh d) None None).
   Proof.
-    intros Hwf Hp. cbn [wf_shape data_len shape_of] in Hwf. cbn [plain_json] in Hp.
+    intros Hwf Hp. cbn [wf_shape data_len shape_of] in Hwf. cbn [repr_ok] in Hp.
     destruct sh as [|n [|n2 sh']].
     - destruct d as [|x [|? ?]]; try discriminate. cbn [to_json]. cbn [forallb] in Hp.
       rewrite andb_true_r in Hp. unfold p_value. rewrite (p_array_simple self 0%nat) by exact I.
       cbn [p_coll p_scalar p_u8]. rewrite Hp. reflexivity.
-    - rewrite (rank1_shape _ _ Hwf). change (to_json (VByte [length d] d)) with (cB d).
+    - rewrite (rank1_shape _ _ Hwf). change (to_json true (VByte [length d] d)) with (cB d).
       assert (Hnt : no_tuple (cB d)).
       { destruct d as [|a [|b [|c [|? ?]]]]; try exact I; reflexivity. }
       unfold p_value. rewrite (p_array_simple self 0%nat _ Hnt), cB_0 by auto. reflexivity.
-    - change (to_json (VByte (n :: n2 :: sh') d)) with (JArr [shape_json (n :: n2 :: sh'); cB d]).
+    - change (to_json true (VByte (n :: n2 :: sh') d)) with (JArr [shape_json (n :: n2 :: sh'); cB d]).
       unfold p_value. rewrite meta_0. unfold arr. rewrite cB_0 by auto. reflexivity.
   Qed.
 
-  Lemma rt_char sh d : wf_shape (VChar sh d) = true -> plain_json (VChar sh d) = true ->
-    p_value self (to_json (VChar sh d)) = Some (MV (VChar sh d) None None).
+  Lemma rt_char sh d : wf_shape (VChar sh d) = true ->
+    p_value true self (to_json true (VChar sh d)) = Some (MV (VChar sh d) None None).
   Proof.
-    intros Hwf Hp. cbn [wf_shape data_len shape_of] in Hwf. cbn [plain_json] in Hp.
-    assert (Hm : forall sh', length sh' <> 1%nat -> to_json (VChar sh' d) = JArr [shape_json sh'; JStr d] ->
-                 p_value self (to_json (VChar sh' d)) = Some (MV (VChar sh' d) None None)).
-    { intros sh' _ ->. unfold p_value. rewrite meta_0, meta_1, meta_2, meta_3 by reflexivity. reflexivity. }
-    destruct sh as [|n [|n2 sh']].
-    - apply Hm; [cbn; congruence | reflexivity].
-    - rewrite (rank1_shape _ _ Hwf). change (to_json (VChar [length d] d)) with (JStr d).
-      apply negb_true_iff in Hp. unfold p_value.
-      rewrite !(p_array_simple self) by exact I.
-      cbn [p_coll p_scalar option_map p_u8 p_complex]. rewrite (not_spelling_f64rep _ Hp). reflexivity.
-    - apply Hm; [cbn; congruence | reflexivity].
+    intros Hwf. cbn [wf_shape data_len shape_of] in Hwf.
+    assert (Hm : forall sh', p_value true self (JArr [shape_json sh'; JStr d]) = Some (MV (VChar sh' d) None None)).
+    { intros sh'. unfold p_value. rewrite meta_0, meta_1, meta_2, meta_3 by reflexivity. reflexivity. }
+    cbn [to_json]. destruct (is_spelling d) eqn:Es; cbn [andb]; [apply Hm|].
+    destruct sh as [|n [|n2 sh']]; [apply Hm | | apply Hm].
+    rewrite (rank1_shape _ _ Hwf). unfold p_value.
+    rewrite !(p_array_simple self) by exact I.
+    cbn [p_coll p_scalar option_map p_u8 p_complex]. rewrite (not_spelling_f64rep _ Es). reflexivity.
   Qed.
 
-  Lemma rt_cplx sh d : wf_shape (VCplx sh d) = true -> plain_json (VCplx sh d) = true ->
-    p_value self (to_json (VCplx sh d)) = Some (MV (VCplx sh d) None None).
+  Lemma rt_cplx sh d : wf_shape (VCplx sh d) = true -> repr_ok (VCplx sh d) = true ->
+    p_value true self (to_json true (VCplx sh d)) = Some (MV (VCplx sh d) None None).
   Proof.
-    intros Hwf Hp. cbn [wf_shape data_len shape_of] in Hwf. cbn [plain_json] in Hp.
-    assert (Hm : forall sh', to_json (VCplx sh' d) = JArr [shape_json sh'; cC d] ->
-                 p_value self (to_json (VCplx sh' d)) = Some (MV (VCplx sh' d) None None)).
+    intros Hwf Hp. cbn [wf_shape data_len shape_of] in Hwf. cbn [repr_ok] in Hp.
+    assert (Hm : forall sh', to_json true (VCplx sh' d) = JArr [shape_json sh'; cC d] ->
+                 p_value true self (to_json true (VCplx sh' d)) = Some (MV (VCplx sh' d) None None)).
     { intros sh' ->. unfold p_value. rewrite meta_0, meta_1, (meta_2 _ _ _ (cC_not_complex d)). unfold arr.
       rewrite !cC_other by tauto. rewrite cC_2 by auto. reflexivity. }
     destruct sh as [|n [|n2 sh']].
     - apply Hm. destruct d; reflexivity.
-    - rewrite (rank1_shape _ _ Hwf). change (to_json (VCplx [length d] d)) with (cC d).
+    - rewrite (rank1_shape _ _ Hwf). change (to_json true (VCplx [length d] d)) with (cC d).
       assert (Hnt : no_tuple (cC d)).
       { destruct d as [|a [|b [|c [|? ?]]]]; try exact I; cbn; apply pairj_not_shape. }
       unfold p_value. rewrite !(p_array_simple self _ _ Hnt). rewrite !cC_other by tauto.
-      replace (p_scalar self 0 (cC d)) with (@None value) by (destruct d; reflexivity).
-      replace (p_scalar self 1 (cC d)) with (@None value) by (destruct d; reflexivity).
+      replace (p_scalar true self 0 (cC d)) with (@None value) by (destruct d; reflexivity).
+      replace (p_scalar true self 1 (cC d)) with (@None value) by (destruct d; reflexivity).
       rewrite cC_2 by auto. reflexivity.
     - apply Hm. destruct d; reflexivity.
   Qed.
 
-  Lemma boxj_coll_none k j : (k < 4)%nat -> p_coll self k [] (JObj [(K_B, j)]) = None.
+  Lemma boxj_coll_none k j : (k < 4)%nat -> p_coll true self k [] (JObj [(K_B, j)]) = None.
   Proof.
     intros H. destruct k as [|[|[|[|k]]]]; try lia; try reflexivity.
     destruct j as [| | | | | |l|]; try reflexivity. destruct l; reflexivity.
   Qed.
 
   Lemma rt_box sh d : wf_shape (VBox sh d) = true ->
-    Forall (fun x => self (to_json x) = Some (MV (norm x) None None)) d ->
-    p_value self (to_json (VBox sh d)) = Some (MV (norm (VBox sh d)) None None).
+    Forall (fun x => self (to_json true x) = Some (MV (norm x) None None)) d ->
+    p_value true self (to_json true (VBox sh d)) = Some (MV (norm (VBox sh d)) None None).
   Proof.
     intros Hwf IH. cbn [wf_shape] in Hwf. apply andb_prop in Hwf. destruct Hwf as [Hwf _].
     cbn [norm].
     destruct sh as [|n [|n2 sh']].
-    - destruct d as [|x [|? ?]]; try discriminate. change (to_json (VBox [] [x])) with (boxj x).
+    - destruct d as [|x [|? ?]]; try discriminate. change (to_json true (VBox [] [x])) with (boxj x).
       inversion IH; subst. unfold p_value, boxj.
       rewrite !(p_array_simple self) by exact I. rewrite !boxj_coll_none by lia.
-      cbn [p_scalar option_map p_u8 p_f64rep p_f64 p_complex].
-      replace (p_coll self 4 [] (JObj [(K_B, to_json x)])) with (@None value)
-        by (destruct (to_json x) as [| | | | | |l|]; try reflexivity; destruct l; reflexivity).
+      cbn [p_scalar]. rewrite boxj_not_f64rep. cbn [option_map p_u8 p_complex].
+      replace (p_coll true self 4 [] (JObj [(K_B, to_json true x)])) with (@None value)
+        by (destruct (to_json true x) as [| | | | | |l|]; try reflexivity; destruct l; reflexivity).
       fold (boxj x). rewrite boxed_ok by auto. reflexivity.
     - assert (E : [n] = [length d]).
       { cbn in Hwf. apply PeanoNat.Nat.eqb_eq in Hwf. rewrite PeanoNat.Nat.mul_1_r in Hwf. congruence. }
-      rewrite E. change (to_json (VBox [length d] d)) with (cX d).
+      rewrite E. change (to_json true (VBox [length d] d)) with (cX d).
       assert (Hnt : no_tuple (cX d)).
       { destruct d as [|a [|b [|c [|? ?]]]]; try exact I; reflexivity. }
       unfold p_value. rewrite !(p_array_simple self _ _ Hnt). rewrite !cX_other by tauto.
-      replace (p_scalar self 0 (cX d)) with (@None value) by (destruct d; reflexivity).
-      replace (p_scalar self 1 (cX d)) with (@None value) by (destruct d; reflexivity).
-      replace (p_scalar self 2 (cX d)) with (@None value)
-        by (cbn [p_scalar]; rewrite cX_not_complex; reflexivity).
-      replace (p_scalar self 3 (cX d)) with (@None value) by (destruct d; reflexivity).
+      replace (p_scalar true self 0 (cX d)) with (@None value) by (destruct d; reflexivity).
+      replace (p_scalar true self 1 (cX d)) with (@None value)
+        by (destruct d; [reflexivity | cbn [p_scalar cX]; reflexivity]).
+      replace (p_scalar true self 2 (cX d)) with (@None value)
+        by (cbn [p_scalar]; rewrite cX_not_complex'; reflexivity).
+      replace (p_scalar true self 3 (cX d)) with (@None value) by (destruct d; reflexivity).
       rewrite cX_4 by auto. cbn [relen]. rewrite map_length. reflexivity.
-    - change (to_json (VBox (n :: n2 :: sh') d)) with (JArr [shape_json (n :: n2 :: sh'); cX d]).
+    - change (to_json true (VBox (n :: n2 :: sh') d)) with (JArr [shape_json (n :: n2 :: sh'); cX d]).
       unfold p_value. rewrite meta_0, meta_1, (meta_2 _ _ _ (cX_not_complex d)), meta_3, meta_4 by (cbn; congruence).
       unfold arr. rewrite !cX_other by tauto. rewrite cX_4 by auto. reflexivity.
   Qed.
@@ -315,8 +325,11 @@ Proof.
   destruct Hin as [-> | Hin]; [lia | apply IH; auto; lia].
 Qed.
 
-Theorem value_json_roundtrip_fuel : forall v, wf_shape v = true -> plain_json v = true ->
-  forall fuel, (vdepth v <= fuel)%nat -> of_json_fuel fuel (to_json v) = Some (MV (norm v) None None).
+(** decode (encode v) = v (up to the storage of empty number arrays), for every value: numbers
+    with any NaN sign and payload, infinities, -0; bytes; complex numbers with any parts;
+    characters and strings including the reserved spellings; boxes to any depth *)
+Theorem value_json_roundtrip_fuel : forall v, wf_shape v = true -> repr_ok v = true ->
+  forall fuel, (vdepth v <= fuel)%nat -> of_json_fuel true fuel (to_json true v) = Some (MV (norm v) None None).
 Proof.
   induction v using value_ind'; intros Hwf Hp fuel Hf;
     (destruct fuel as [|f]; [cbn [vdepth] in Hf; lia|]); cbn [of_json_fuel].
@@ -326,18 +339,30 @@ Proof.
   - apply (rt_cplx _ s d); auto.
   - apply rt_box; auto.
     cbn [wf_shape] in Hwf. apply andb_prop in Hwf. destruct Hwf as [_ Hwf].
-    cbn [plain_json] in Hp. cbn [vdepth] in Hf.
+    cbn [repr_ok] in Hp. cbn [vdepth] in Hf.
     rewrite forallb_forall in Hwf, Hp. rewrite Forall_forall in H |- *.
     intros x Hx. apply H; auto. apply (fold_max_le d); auto. lia.
 Qed.
 
 (** the reader as run ([of_json] = 12 levels of nesting) *)
-Theorem value_json_roundtrip : forall v, wf_shape v = true -> plain_json v = true -> (vdepth v <= 12)%nat ->
-  of_json (to_json v) = Some (MV (norm v) None None).
+Theorem value_json_roundtrip : forall v, wf_shape v = true -> repr_ok v = true -> (vdepth v <= 12)%nat ->
+  of_json true (to_json true v) = Some (MV (norm v) None None).
 Proof. intros v Hwf Hp Hd. apply value_json_roundtrip_fuel; auto. Qed.
 
-(** what comes back has the same shape and element class, recursively the same data up to
-    NaN payloads and the storage of empty number arrays *)
+(** no empty number array inside: exactly itself *)
+Fixpoint no_empty_num (v : value) : bool :=
+  match v with VNum _ [] => false | VBox _ d => forallb no_empty_num d | _ => true end.
+Lemma norm_id : forall v, no_empty_num v = true -> norm v = v.
+Proof.
+  induction v using value_ind'; intros Hn; try reflexivity.
+  - destruct d; [discriminate | reflexivity].
+  - cbn [norm]. f_equal. cbn [no_empty_num] in Hn. rewrite forallb_forall in Hn.
+    rewrite Forall_forall in H. rewrite <- (map_id d) at 2. apply map_ext_in. intros x Hx. apply H; auto.
+Qed.
+Theorem value_json_roundtrip_exact : forall v, wf_shape v = true -> repr_ok v = true -> no_empty_num v = true ->
+  (vdepth v <= 12)%nat -> of_json true (to_json true v) = Some (MV v None None).
+Proof. intros v H1 H2 H3 H4. rewrite value_json_roundtrip by auto. rewrite norm_id by auto. reflexivity. Qed.
+
 Definition elem_class (v : value) : nat :=
   match v with VNum _ _ | VByte _ _ => 0 | VCplx _ _ => 1 | VChar _ _ => 2 | VBox _ _ => 3 end%nat.
 Lemma norm_shape v : shape_of (norm v) = shape_of v.
